@@ -97,7 +97,7 @@ EmptyMember(al) ==
 Bump(sz) ==
   /\ phase = "live" /\ pieces # <<>> /\ cl.state = "none"
   /\ LET p == pieces[Len(pieces)]
-     IN /\ p.live /\ p.addr >= 0 /\ p.addr + p.sz = top /\ p.sz > 0 /\ sz = p.al   \* elements of size = alignment
+     IN /\ p.member /\ p.live /\ p.addr >= 0 /\ p.addr + p.sz = top /\ p.sz > 0 /\ sz = p.al   \* elements of size = alignment
         /\ IF sz > end - top
            THEN last' = "oofm" /\ UNCHANGED <<pieces, top>>
            ELSE /\ top' = top + sz /\ last' = "ok"
